@@ -81,6 +81,12 @@ type RecStream[T any] struct {
 	EndGap    time.Duration
 	BlockAt   int
 	IgnoreCtx bool // do not look at ctx when it is already done (still honours it while waiting)
+	// Deaf: ignore ctx completely (no early return, delays are not interruptible). The Stream contract
+	// does not oblige a source to watch its context; such a source still answers every call.
+	Deaf bool
+	// More, if set, makes the stream endless: position p >= len(Items) yields More(p) after MoreGap.
+	More    func(pos int) T
+	MoreGap time.Duration
 	// CloseDelay makes Close take that long (fake time, bubble only): the stream only counts as closed
 	// once Close has returned, so "closed by the time X returns" is observable.
 	CloseDelay time.Duration
@@ -143,7 +149,7 @@ func (s *RecStream[T]) Next(ctx context.Context) (T, error) {
 		return v, err
 	}
 
-	if !s.IgnoreCtx && ctx.Err() != nil {
+	if !s.IgnoreCtx && !s.Deaf && ctx.Err() != nil {
 		return ret(zero, ctx.Err())
 	}
 	// transient errors scheduled before this position
@@ -168,6 +174,10 @@ func (s *RecStream[T]) Next(ctx context.Context) (T, error) {
 		if d <= 0 {
 			return nil
 		}
+		if s.Deaf {
+			time.Sleep(d)
+			return nil
+		}
 		t := time.NewTimer(d)
 		defer t.Stop()
 		select {
@@ -190,6 +200,17 @@ func (s *RecStream[T]) Next(ctx context.Context) (T, error) {
 		s.faults = append(s.faults, FaultEvent{Tick(), s.Final})
 		s.mu.Unlock()
 		return ret(zero, s.Final)
+	}
+	if pos >= len(s.Items) && s.More != nil {
+		if err := wait(s.MoreGap); err != nil {
+			return ret(zero, err)
+		}
+		s.mu.Lock()
+		item := s.More(s.pos)
+		s.pos++
+		s.HandedAt = append(s.HandedAt, time.Now())
+		s.mu.Unlock()
+		return ret(item, nil)
 	}
 	if pos >= len(s.Items) {
 		if !s.endSeen {
